@@ -587,6 +587,11 @@ def hunkLinePre (cfg : Cfg) (m : M) : Except String M :=
   | .hunkHeader _ hh line raw src => emitHunkHeader cfg m1 hh line raw src
   | _ => .ok m1
 
+/-- the kind of diff a hunk state belongs to (a line that is not a hunk line keeps it) -/
+def stateDiffType : State → DiffType
+  | .hunkHeader dt .. | .hunkMinus dt | .hunkZero dt | .hunkPlus dt => dt
+  | _ => .unified
+
 /-- second part: classify the line and buffer / paint it -/
 def hunkLinePush (cfg : Cfg) (m2 : M) (l : L) : Except String M :=
   match newLineState m2.st l with
@@ -617,7 +622,7 @@ def hunkLinePush (cfg : Cfg) (m2 : M) (l : L) : Except String M :=
   | .ok none =>
     let m' := flushMP m2
     .ok { m' with buf := m'.buf ++ [{ kind := .other, text := Text.expand cfg.tab l.raw, src := m2.n }],
-                  st := .hunkZero .unified }
+                  st := .hunkZero (stateDiffType m2.st) }
 
 def handleHunkLine : Handler := fun cfg m l =>
   if !isHunkState m.st then .ok (false, m) else
